@@ -143,6 +143,7 @@ type vsvScn struct {
 	regOwner map[string]int // callback id -> stream, mirrors callbackStore.newJob (updated under its write lock)
 	expect   map[int]int    // beacons dispatched to the stream's callback
 	got      map[int]int    // live Sends completed by the stream
+	entered  map[int]int    // Sends entered by the stream
 	nondet   bool
 	chans    map[string]chan struct{}
 }
@@ -261,6 +262,9 @@ func vsvAt(point string, args []any) {
 		case "afterScan":
 			sc.tr.Emit("AfterScan", vlib.E{"s": s})
 		case "registered":
+			sc.mu.Lock()
+			sc.regOwner[id] = s // normally already set at cb.add
+			sc.mu.Unlock()
 			sc.tr.Emit("Registered", vlib.E{"s": s})
 			close(sc.chanFor("reg", uint64(s)))
 		}
@@ -280,6 +284,9 @@ func (st *vsvStream) Send(p *proto.BeaconPacket) error {
 	r := p.GetRound()
 	dg := vsvDigest(p.GetSignature())
 	sc.tr.Emit("SendEnter", vlib.E{"s": st.n, "r": r})
+	sc.mu.Lock()
+	sc.entered[st.n]++
+	sc.mu.Unlock()
 	if sc.gated {
 		if err := sc.park(&vsvArr{point: "send", s: st.n, r: r}); err != nil {
 			return err
@@ -312,7 +319,7 @@ func vsvNewScn(tr *vlib.Trace, no int, sc vsvScript, gated bool, workdir string,
 	s := &vsvScn{tr: tr, name: sc.Name, no: no, gated: gated, tdown: make(chan struct{}),
 		events: make(chan *vsvArr, 8192), streams: map[int]*vsvStream{}, gids: map[uint64]int{},
 		sigs: map[uint64][]byte{}, same: sc.SameAddr, chans: map[string]chan struct{}{},
-		regOwner: map[string]int{}, expect: map[int]int{}, got: map[int]int{}}
+		regOwner: map[string]int{}, expect: map[int]int{}, got: map[int]int{}, entered: map[int]int{}}
 	ctx := context.Background()
 	var base chain.Store
 	var err error
@@ -1091,6 +1098,69 @@ func vsvScanStall(tr *vlib.Trace, no int, name, backend string, nputs int, workd
 	s.tr.Emit("Quiesce", vlib.E{"parked": [][]any{}, "diverged": false})
 }
 
+// vsvReplStall: same-address replacement while the predecessor's consumer is stalled (real queue
+// capacity, far fewer than CallbackWorkerQueue beacons): stream A goes live, its consumer stops
+// reading, `pre` beacons are stored (A's worker is stuck in Send on the first, the others wait in A's
+// queue), stream B connects from the SAME address (fromB = 0: live only, else scan + live) and
+// `post` beacons are stored.  B is healthy: it must be handed every beacon dispatched to it.
+func vsvReplStall(tr *vlib.Trace, no int, name, backend string, pre, post int, fromB uint64, workdir string, l log.Logger) {
+	sc := vsvScript{Name: name, Backend: backend, Init: 3, Buf: 4000, SameAddr: true}
+	s, err := vsvNewScn(tr, no, sc, false, workdir, l)
+	if err != nil {
+		tr.Emit("Reset", vlib.E{"scenario": name, "error": err.Error()})
+		return
+	}
+	defer s.teardown()
+	reg := func(n int) bool {
+		select {
+		case <-s.chanFor("reg", uint64(n)):
+			return true
+		case <-time.After(5 * time.Second):
+			return false
+		}
+	}
+	a := s.open(1, 0, l)
+	reg(1)
+	s.tr.Emit("Fault", vlib.E{"s": 1, "k": "stall"})
+	a.mode.Store("stalled")
+	r := sc.Init
+	for k := 0; k < pre; k++ {
+		r++
+		if !s.putFree(r) {
+			break
+		}
+	}
+	// A's worker is inside Send now
+	vlib.Eventually(5*time.Second, func() bool {
+		s.mu.Lock()
+		defer s.mu.Unlock()
+		return pre == 0 || s.entered[1] > 0
+	})
+	s.open(2, fromB, l)
+	if !reg(2) {
+		if where, bl := s.blocked("(*callbackStore).AddCallback(", s.chanFor("reg", 2)); bl && where != "unknown" {
+			s.tr.Emit("StreamBlocked", vlib.E{"s": 2, "where": where})
+		}
+	}
+	for k := 0; k < post; k++ {
+		r++
+		if !s.putFree(r) {
+			break
+		}
+	}
+	s.settle(10 * time.Second)
+	s.tr.Emit("Quiesce", vlib.E{"parked": [][]any{}, "diverged": false})
+}
+
+func vsvHas(sel, tok string) bool {
+	for _, t := range strings.Split(sel, ",") {
+		if t == tok {
+			return true
+		}
+	}
+	return false
+}
+
 // ---------------------------------------------------------------- entry point
 
 func TestVerifServe(t *testing.T) {
@@ -1150,15 +1220,21 @@ func TestVerifServe(t *testing.T) {
 		backends = strings.Split(b, ",")
 	}
 	for _, be := range backends {
-		if strings.Contains(sel, "scanstall") {
+		if vsvHas(sel, "replstall") {
+			no++
+			vsvReplStall(tr, no, "builtin-replstall-busy-"+be, be, 1, 5, 0, workdir, l)
+			no++
+			vsvReplStall(tr, no, "builtin-replstall-queued-"+be, be, 4, 6, 2, workdir, l)
+		}
+		if vsvHas(sel, "scanstall") {
 			no++
 			vsvScanStall(tr, no, "builtin-scanstall-"+be, be, 400, workdir, l)
 		}
-		if strings.Contains(sel, "stall,") || strings.HasSuffix(sel, "stall") && !strings.HasSuffix(sel, "scanstall") || strings.HasPrefix(sel, "stall") {
+		if vsvHas(sel, "stall") {
 			no++
 			vsvStall(tr, no, "builtin-stall-"+be, be, 5, workdir, l)
 		}
-		if !strings.Contains(sel, "soak") {
+		if !vsvHas(sel, "soak") {
 			continue
 		}
 		nsoak, nputs := 2, 60
